@@ -148,7 +148,10 @@ def edge_dump(d, module, cfg_text, timeout=900):
         raise ToolError(f"edge dump of {module} failed: {err}\n{out[-3000:]}")
     edges = []
     meaning = {}
+    init = None
     for line in out.splitlines():
+        if line.startswith('<<"INIT"'):
+            init = parse_tla_tuple_of_strings(line)[1]
         if line.startswith('<<"MEANING"'):
             m = json.loads(parse_tla_tuple_of_strings(line)[1])
             meaning = m if isinstance(m, dict) else {}
@@ -157,10 +160,10 @@ def edge_dump(d, module, cfg_text, timeout=900):
             if len(parts) != 4:
                 raise ToolError("unparsable EDGE line: " + line[:200])
             edges.append((parts[1], json.loads(parts[2]), parts[3]))
-    return edges, tlc_stats(out), meaning
+    return edges, tlc_stats(out), meaning, init
 
 
-def make_walks(edges, seed=0, max_walk=400):
+def make_walks(edges, init_state, seed=0, max_walk=400):
     """Cover every edge of the bounded graph at least once with walks that start
     in the initial state.  Returns list of walks (lists of request dicts)."""
     rnd = random.Random(seed)
@@ -172,15 +175,16 @@ def make_walks(edges, seed=0, max_walk=400):
         return ids[s]
 
     out = collections.defaultdict(list)
-    init = None
+    init = nid(init_state)
+    seen = set()
     for (s, a, t) in edges:
         if a.get("op") == "init":
             continue
+        key = (s, json.dumps(a, sort_keys=True))
+        if key in seen:          # same request in the same implementation state
+            continue
+        seen.add(key)
         out[nid(s)].append([a, nid(t), False])
-    # the initial state is the only one that is never a destination of a non-self edge... find by BFS root:
-    dests = {e[1] for es in out.values() for e in es if True}
-    roots = [n for n in out if n not in {e[1] for m, es in out.items() for e in es if e[1] != m}]
-    init = roots[0] if roots else 0
     # BFS tree from init
     def bfs(src):
         prev = {src: None}
